@@ -1887,8 +1887,21 @@ double Analyser::AnalyserImpl::powerValue(const AnalyserEquationAstPtr &ast,
 
         return initialValueAsDouble;
     }
-    case AnalyserEquationAst::Type::CN:
-        return std::stod(ast->value());
+    case AnalyserEquationAst::Type::CN: {
+        // Note: the value of a CN element may be out of the range of a double
+        //       (e.g., 1e999), in which case we don't have a value to work
+        //       with.
+
+        double value;
+
+        if (!convertToDouble(ast->value(), value)) {
+            powerData.mExponentValueAvailable = false;
+
+            return NAN;
+        }
+
+        return value;
+    }
 
         // Qualifier elements.
 
